@@ -1,0 +1,31 @@
+//go:build verif
+
+// Machine-checked contracts of the mutex flavours used by the subscribers (C02). Comments only; read by
+// the verifier in /verif.
+
+package xsync
+
+//@ type MutexWithSpinlock
+//@   atomic lock : rely new == 0 || new == 1 ; guar (old == 0 && new == 1) || new == 0
+
+//@ func (*MutexWithSpinlock).Lock
+//@   props C02 C13
+//@   ensures [returns-only-after-winning-the-transition|C02] cas_ok(lock)
+
+//@ loop (*MutexWithSpinlock).Lock#0
+
+//@ func (*MutexWithSpinlock).Unlock
+//@   props C02 C13
+//@   ensures [releases|C02] m.lock == 0
+
+//@ func (*MutexWithLock).Lock
+//@   props C02
+//@   track lock.* unlock.* trylock.*
+//@   nolockleak-exempt
+//@   ensures [delegates-to-the-real-mutex|C02] trace(lock.mu)
+
+//@ func (*MutexWithLock).Unlock
+//@   props C02
+//@   holding mu
+//@   track lock.* unlock.* trylock.*
+//@   ensures [delegates-to-the-real-mutex|C02] trace(unlock.mu)
